@@ -70,7 +70,7 @@ def render_amount(rnd, val, conv):
     neg = val < 0
     a = abs(val)
     # decimal expansion
-    nd = rnd.choice([0, 1, 2, 2, 2, 3]) if a.denominator == 1 else None
+    nd = rnd.choice([0, 0, 0, 1, 2, 2, 3]) if a.denominator == 1 else None
     if nd is None:
         nd = 0
         while (a * 10 ** nd).denominator != 1:
@@ -312,6 +312,74 @@ def gen_case(rnd, nrows=None):
     return case
 
 
+def written_amounts(conv):
+    """Systematic family of ways of WRITING a number under a decimal convention, with the number written
+    (the direct, implementation-side form of c05_amount_value): digit groups joined by the convention's thousands
+    separator (any group sizes; also a leading / trailing separator), with and without a decimal part, signs,
+    parentheses, currency symbols.  The value is computed from the digits, never by float()."""
+    point = ',' if conv == ',' else '.'
+    seps = [','] if conv == '.' else ['.', ' ']
+    ints = [['1', '250'], ['12', '500'], ['1', '2'], ['1', '5'], ['7'], ['100'], ['1', '234', '567'], ['0', '5'], ['1', '000']]
+    fracs = [None, '', '5', '50', '056', '00']
+    out = []
+
+    def add(cell, groups, fr, neg):
+        digits = ''.join(groups)
+        f = fr or ''
+        v = Fraction(int((digits + f) or '0'), 10 ** len(f))
+        if v != 0:
+            out.append((cell, -v if neg else v))
+    for th in seps:
+        for groups in ints:
+            for fr in fracs:
+                body = th.join(groups) + ('' if fr is None else point + fr)
+                add(body, groups, fr, False)
+                add('-' + body, groups, fr, True)
+            joined = th.join(groups)
+            if th != ' ':                       # a blank at the edge of the cell is stripped anyway
+                add(th + joined, groups, None, False)            # leading thousands separator
+                add(joined + th, groups, None, False)            # trailing thousands separator
+                add('-' + th + joined, groups, None, True)
+                add(joined + th + point + '5', groups, '5', False)
+            add('+' + joined, groups, None, False)
+            add('(' + joined + ')', groups, None, True)
+            add('$' + joined, groups, None, False)
+            add('-€' + joined, groups, None, True)
+            add(joined + ' €', groups, None, False)
+            add('  ' + joined + '\t', groups, None, False)
+    # decimal part only
+    for fr in ['5', '05', '125']:
+        add(point + fr, [], fr, False)
+        add('-' + point + fr, [], fr, True)
+    seen, uniq = set(), []
+    for c, v in out:
+        if c not in seen:
+            seen.add(c)
+            uniq.append((c, v))
+    return uniq
+
+
+def amount_corpus():
+    """Files whose rows are the written_amounts of each convention (ground truth attached), as plain / negated / absolute."""
+    out = []
+    for conv in ('.', ','):
+        forms = written_amounts(conv)
+        for k, off in enumerate(range(0, len(forms), 12)):
+            sign = ['', '', '-', '+'][k % 4]
+            src = {'name': 'Bank', 'format': '{date:%%Y-%%m-%%d}, {description}, {%samount}' % sign, 'has_header': False}
+            if conv == ',' or k % 2:
+                src['decimal_separator'] = conv
+            rows = []
+            for j, (cell, v) in enumerate(forms[off:off + 12]):
+                rows.append({'cells': ['2024-03-%02d' % (1 + j), 'WRITTEN %d' % j, cell], 'kind': 'written', 'truth': 'accept',
+                             'expect': {'date': '2024-03-%02dT00:00:00' % (1 + j), 'desc': 'WRITTEN %d' % j,
+                                        'value': [v.numerator, v.denominator], 'field': None}})
+            lay = {'mode': 'desc', 'roles': ['date', 'description', 'amount'], 'names': [], 'date_format': '%Y-%m-%d', 'conv': conv,
+                   'kind': 'csv', 'delim_char': ',', 'regex': None, 'opt_last': False, 'tmpl_pieces': None, 'has_header': False}
+            out.append({'source': src, 'lay': lay, 'rows': rows, 'header': [], 'quoting': csv.QUOTE_MINIMAL, 'lt': '\n'})
+    return out
+
+
 def corpus_cases():
     """Hand-written cases that always run first (defect witnesses and boundary layouts)."""
     out = []
@@ -346,7 +414,7 @@ def corpus_cases():
        [{'cells': ['2024-01-05', '4.50'], 'kind': 'short', 'truth': 'reject'},
         {'cells': ['2024-01-06', '5.50', 'SHOP'], 'kind': 'good', 'truth': 'accept',
          'expect': {'date': '2024-01-06T00:00:00', 'desc': 'xSHOP', 'value': [11, 2], 'field': [('merchant', 'SHOP')]}}])
-    return out
+    return out + amount_corpus()
 
 
 # =====================================================================================================
